@@ -8,14 +8,65 @@ def nontrivial(p, line):
     return bool(p['outcome']=='ok' and pipe.seg(line,'thall')!='1')
 
 
+def family(number):
+    for hi, f in ((2, "a"), (15, "m"), (74, "o"), (142, "t"), (194, "h"), (230, "c")):
+        if number <= hi:
+            return f
+
+
+def bravais_independent(number, symbol):
+    """Bravais class from the ITA number (crystal family) and the lattice letter of the Hall symbol only - independent of the
+    arithmetic-crystal-class table the implementation (and the Lean oracle's table lookup) reads it from."""
+    f = family(number)
+    letter = symbol.lstrip("-")[0]
+    if number in (146, 148, 155, 160, 161, 166, 167):
+        return "hR"   # the seven rhombohedral types: lattice letter R on hexagonal axes, P on rhombohedral axes
+    if f == "m":
+        letter = "P" if letter == "P" else "C"
+    elif f == "o" and letter in "ABC":
+        letter = "S"
+    return f + letter
+
+
+def pearson_independent(per_mode):
+    """Last clause of C06 with an expectation that does not come from moyo's own class table."""
+    import vlib
+    from checks.c04 import parse_summary
+    fails, todo = [], []
+    for mode, (reqs, ans) in per_mode.items():
+        for line, a in zip(reqs, ans):
+            p = pipe.parse_answer(a)
+            if p is None or p["outcome"] != "ok":
+                continue
+            try:
+                S = parse_summary(p["summary"])
+            except Exception:
+                continue
+            todo.append((mode, line, S))
+    halls = sorted({S["hall"] for _, _, S in todo})
+    entries = dict(zip(halls, vlib.run_model([f"hallentry {h}" for h in halls])))
+    for mode, line, S in todo:
+        e = entries[S["hall"]].split("|")
+        symbol = e[2] if len(e) > 2 else ""
+        if not symbol:
+            continue
+        exp = bravais_independent(S["number"], symbol)
+        m = __import__("re").match(r"([a-zA-Z]+)(\d+)$", S["pearson"])
+        if not m or m.group(1) != exp:
+            fails.append((mode, line, f"C06: Pearson symbol {S['pearson']}: the Bravais class of No. {S['number']} with Hall symbol '{symbol}' is {exp} "
+                                      "(crystal family from the ITA number, lattice letter from the Hall symbol)"))
+    return fails
+
+
 def run(tier, seed):
     return pipe.run_property("C06", tier, seed, ['hall', 'noise', 'hallreq', 'lowsym'], PROPS,
-                             {"rule": 'every Hall setting in both conventions, noisy twins (<= 5% symprec), and every requested Hall setting; non-trivial when a dataset was returned and the setting is not P1'},
-                             nontrivial, stages=["s6", "s7"],
+                             {"rule": 'every Hall setting in both conventions, noisy twins (<= 5% symprec), and every requested Hall setting; non-trivial when a dataset was returned and the setting is not P1; '
+                                      'the Pearson symbol is also compared with a Bravais class derived from the ITA number and the lattice letter of the Hall symbol alone'},
+                             nontrivial, stages=["s6", "s7"], extra=pearson_independent,
                              trusted=["premise validation of the generator (the generated crystal has exactly the generating group, symmetry gap >= 0.2 A) is a brute-force search in Rust, independent of moyo",
                                       "f64 rounding inside moyo is not modelled: the oracle judges the returned values in exact rational arithmetic",
                                       "the oracle's float code only orders candidate sites; every verdict is an exact test (Proofs/OracleSite.lean)"])
 
 
 def replay(path):
-    return pipe.replay("C06", path)
+    return pipe.replay("C06", path, extra=pearson_independent)
